@@ -171,6 +171,8 @@ class Run:
         self.watch = {}
         self.guards = []
         self.qvars = []
+        self._in_finding = False
+        self.entry_frame = None
 
     # ---------------------------------------------------------------- decisions / assumptions
     def assume(self, cond):
@@ -233,6 +235,18 @@ class Run:
     def oblige(self, name, goal, kind="assert", note="", expect_sat=False):
         if isinstance(goal, bool):
             goal = z3.BoolVal(goal)
+        region = self.x.finding_region(name) if not expect_sat and not self._in_finding else None
+        if region is not None:
+            # known finding (listed in known_findings.json): the clause must hold OUTSIDE the region R, and must still
+            # fail inside it (otherwise the finding is stale)
+            R = self.spec_bool(region, self.x.post_frame(self, self.entry_frame))
+            self._in_finding = True
+            try:
+                self.oblige(name, z3.Or(goal, R), kind, note + " [outside the region of a known finding]")
+                self.oblige("finding@" + name, z3.And(z3.Not(goal), R), kind="finding", expect_sat=True, note="known finding still reproduces inside its region")
+            finally:
+                self._in_finding = False
+            return
         if self.guards or self.qvars:
             # raised while evaluating a comprehension element / conditional expression as a term: the obligation
             # holds under the enclosing conditions, for every element
